@@ -1273,16 +1273,23 @@ func addRule(c *core.Ctx, rel, typ string) {
 					if ps, err := paths.Enumerate(sf, paths.Config{}); err == nil {
 						bad := ""
 						for _, p := range ps {
-							recvNil := false
+							recvNil, recvNonNil := false, false
 							for _, e := range p.Events {
 								switch e.Kind {
 								case paths.EvBranch:
-									if subj, neq, ok := nilTest(e.Cond); ok && e.Resolve(subj) == recv && neq != e.Taken {
-										recvNil = true
+									if subj, neq, ok := nilTest(e.Cond); ok && e.Resolve(subj) == recv {
+										if neq != e.Taken {
+											recvNil = true
+										} else {
+											recvNonNil = true
+										}
 									}
 								case paths.EvInstr:
 									if mu, ok := e.Instr.(*ssa.MapUpdate); ok && !recvNil && e.Resolve(mu.Map) != recv {
 										bad = "on a path where the container exists the entry is stored into another map: adding to a non-empty container is lost"
+									}
+									if mu, ok := e.Instr.(*ssa.MapUpdate); ok && e.Resolve(mu.Map) == recv && !recvNonNil {
+										bad = "the entry is stored into the receiver's map without the map having been found non-nil: adding to an empty (nil) container panics"
 									}
 								}
 							}
@@ -1317,11 +1324,16 @@ func addRule(c *core.Ctx, rel, typ string) {
 						continue
 					}
 					nonNil := false
+					foundNil := false
 					for _, e := range p.Events {
 						switch e.Kind {
 						case paths.EvBranch:
-							if subj, neq, ok := nilTest(e.Cond); ok && isRecvLoad(e.Resolve(subj)) && neq == e.Taken {
-								nonNil = true
+							if subj, neq, ok := nilTest(e.Cond); ok && isRecvLoad(e.Resolve(subj)) {
+								if neq == e.Taken {
+									nonNil = true
+								} else {
+									foundNil = true
+								}
 							}
 						case paths.EvInstr:
 							switch x := e.Instr.(type) {
@@ -1329,6 +1341,11 @@ func addRule(c *core.Ctx, rel, typ string) {
 								if x.Addr == recv {
 									_, isMk := x.Val.(*ssa.MakeMap)
 									nonNil = isMk
+									// a fresh map replaces the container only where the container was found empty (nil):
+									// otherwise what it held is thrown away
+									if isMk && !foundNil {
+										bad = "the container is replaced by a fresh map on a path where it was not found nil: the entries it held are lost"
+									}
 								}
 							case *ssa.MapUpdate:
 								m := e.Resolve(x.Map)
